@@ -56,6 +56,18 @@ pub fn run(case: &Value) -> Vec<Value> {
         Value::Object(o) => o.get("Static").and_then(|x| x.as_str()).unwrap_or("<dynamic>").to_string(),
         _ => "?".to_string(),
     };
+    // a catch-all rule whose target takes its path AND query from a marker: forwarded parameters must be attached
+    // with the separator the substituted target needs
+    let catch_all: Rule = serde_json::from_value(json!({"id": "c", "rank": 0, "source": {"path": "/@rest"}, "markers": [{"name": "rest", "regex": ".*", "transformers": []}],
+        "status_code": 301, "target": "/n/@rest"})).expect("catch-all rule");
+    let mut router_c = Router::<Rule>::from_config(config.clone());
+    router_c.insert(catch_all);
+    let location = |routes: Vec<std::sync::Arc<redirectionio::router::Route<Rule>>>, req: &Request| -> String {
+        if routes.is_empty() { return String::new(); }
+        let mut a = Action::from_routes_rule(routes, req, None);
+        a.filter_headers(Vec::<Header>::new(), 0, false, None).iter().find(|h| h.name == "Location").map(|h| h.value.clone()).unwrap_or_default()
+    };
+    let mut clocs = Vec::new();
     let mut m = Vec::new();
     let mut norms = Vec::new();
     let mut locs = Vec::new();
@@ -66,17 +78,17 @@ pub fn run(case: &Value) -> Vec<Value> {
         let routes = router.match_request(&req);
         m.push(!routes.is_empty());
         norms.push(back(&req.path_and_query()));
-        let loc = if routes.is_empty() { String::new() } else {
-            let mut a = Action::from_routes_rule(routes, &req, None);
-            a.filter_headers(Vec::<Header>::new(), 0, false, None).iter().find(|h| h.name == "Location").map(|h| h.value.clone()).unwrap_or_default()
-        };
+        let loc = location(routes, &req);
         locs.push(back(&loc));
+        clocs.push(back(&location(router_c.match_request(&req), &req)));
         // re-normalising a request changes nothing
         let r1 = router.rebuild_request(&req);
         let r2 = router.rebuild_request(&r1);
         let (s1, s2) = (serde_json::to_string(&r1).unwrap(), serde_json::to_string(&r2).unwrap());
         let m1 = !router.match_request(&r1).is_empty();
-        idem.push(json!([fnv(&s1) == fnv(&s2) && s1 == s2, m1]));
+        // ... including what is forwarded to the target
+        let loc2 = location(router.match_request(&r2), &r2);
+        idem.push(json!([fnv(&s1) == fnv(&s2) && s1 == s2 && loc2 == loc, m1]));
     }
-    vec![json!({"ev": "url", "cfg": case["cfg"], "ru": case["ru"], "rule_norm": back(&rule_norm), "m": m, "norms": norms, "locs": locs, "idem": idem})]
+    vec![json!({"ev": "url", "cfg": case["cfg"], "ru": case["ru"], "rule_norm": back(&rule_norm), "m": m, "norms": norms, "locs": locs, "clocs": clocs, "idem": idem})]
 }
